@@ -35,6 +35,7 @@ CASES = [  # (defect id, property, commit, demo, rules expected)
     ("D30", "C09", "b79fa15", "d30_hebrew_months_between_edges.py", ["R09.18"]),
     ("D31", "C07", "d31fdd2", "d31_composite_same_predicate.py", ["R07.4"]),
     ("D32", "C03", "bb76907", "d32_negative_duration_float_totals.py", ["R03.18"]),
+    ("D34", "C14", "b03614f", "d34_signed_count_beyond_32_bits.py", ["R14.11"]),
 ]
 demos = os.path.join(HERE, "demos")
 for did, prop, commit, demo, rules in CASES:
